@@ -195,8 +195,21 @@ func ruleA1Modes(c *Ctx) {
 
 	// run-loop confinement: which roots reach each function
 	var runRoot *ssa.Function
+	// the run loop is the root that receives the connection's state events (identified by what it does, not by name)
+	var loopFn *ssa.Function
+	if fCh := c.Field("clientCxn", "csceCh"); fCh != nil {
+		for _, fn := range c.SrcFuncs() {
+			for _, in := range instrsOf(fn) {
+				if u, ok := in.(*ssa.UnOp); ok && u.Op == token.ARROW {
+					if _, f := loadedField(u.X); f == fCh {
+						loopFn = fn
+					}
+				}
+			}
+		}
+	}
 	for _, r := range rm.roots {
-		if fnName(r) == "(*clientCxn).run" {
+		if r == loopFn || (loopFn == nil && fnName(r) == "(*clientCxn).run") {
 			runRoot = r
 		}
 	}
@@ -374,7 +387,7 @@ func ruleAppendAlias(c *Ctx) {
 	c.S.Rule("A1-append-alias", textAppendAlias, 2)
 	p := c.Prog
 	isGrammarSlice := func(t types.Type) bool {
-		if n, ok := t.(*types.Named); ok && n.Obj().Name() == "redisArgs" && n.Obj().Pkg() == p.Pkg.Types {
+		if n, ok := t.(*types.Named); ok && p.isPkgType(n, "redisArgs") {
 			return true
 		}
 		if s, ok := t.Underlying().(*types.Slice); ok {
